@@ -9,9 +9,9 @@ CAPS = [0, 1, 2, 3, 5, 8, 100, 127, 128, 129, 255, 256, 1000, 4096, 1 << 20]
 def gen_case(rng, i, tier):
     cap = rng.choice(CAPS if tier == "thorough" or rng.random() < 0.85 else [0, 1, 2, 3])
     n = rng.choice([20, 60, 150, 400]) if cap < 5000 else rng.choice([20, 60])
-    if tier == "thorough":
-        n *= 3
     style = rng.choice(["uniform", "skewed", "small", "target", "saturate"])
+    if tier == "thorough" and style in ("skewed", "small", "saturate"):
+        n *= 3      # long sessions only over few distinct hashes: every trace line lists the non-zero table words
     lines = ["cfg kind=sketch", f"E {cap}"]
     universe = [rng.getrandbits(64) for _ in range(rng.choice([2, 5, 20]))]
     for _ in range(n):
